@@ -85,16 +85,16 @@ Definition model_ok (c : case) : bool :=
 
 Definition spec_ok (c : case) : bool :=
   match (if Nat.leb 100 (c_prim c) then c_prim c - 100 else c_prim c) with
-  | 0 => sf_accepts (c_hist c)
-  | 1 => lc_accepts (c_hist c)
+  | 0 => sf_accepts (c_hist c) && complete (c_hist c)
+  | 1 => lc_accepts (c_hist c) && complete (c_hist c)
   | 2 => linearizable (LIM.sstep (c_n c)) LIM.init (c_hist c)
   | 3 => linearizable REF.sstep REF.init (c_hist c)
   | 4 => linearizable ONCE.sstep ONCE.init (c_hist c)
   | 5 => linearizable SPIN.sstep SPIN.init (c_hist c)
   | 6 => linearizable DONE.sstep DONE.init (c_hist c)
-  | 7 => pool_accepts (c_n c) (c_m c) (c_hist c)
-  | 8 => rm_accepts (c_hist c)
+  | 7 => pool_accepts (c_n c) (c_m c) (c_hist c) && (if Nat.leb 100 (c_prim c) then true else pool_final_ok (c_n c) (c_hist c))
+  | 8 => rm_accepts (c_hist c) && complete (c_hist c)
   | 9 => linearizable (tl_sstep (c_n c)) LIM.init (c_hist c) && tl_timeouts_ok (c_hist c) []
-  | 10 => lc_accepts (c_hist c)
+  | 10 => lc_accepts (c_hist c) && complete (c_hist c)
   | _ => false
   end.
